@@ -82,6 +82,42 @@ def load_known():
         return json.load(f)
 
 
+def changed_sources(pid, cfg):
+    """Anchor files of the property (properties.jsonl + cfg watch_files) whose text differs from the
+    baseline the model was validated against."""
+    try:
+        base = json.load(open(os.path.join(ROOT, "tools", "baseline_hashes.json")))["files"]
+    except (OSError, ValueError, KeyError):
+        return []
+    pats = list(cfg.get("watch_files", []))
+    try:
+        for l in open(os.path.join(ROOT, "properties.jsonl")):
+            if l.strip():
+                p = json.loads(l)
+                if p["id"] == pid:
+                    pats += p["anchors"]["files"]
+    except OSError:
+        pass
+    files = set()
+    for pat in pats:
+        if "*" in pat:
+            files.update(os.path.relpath(x, REPO) for x in glob.glob(os.path.join(REPO, pat)))
+            files.update(f for f in base if glob.fnmatch.fnmatch(f, pat))
+        else:
+            files.add(pat)
+    changed = []
+    for f in sorted(files):
+        if f.endswith("_test.go") or not (f.endswith(".go") or f.endswith(".proto")):
+            continue
+        try:
+            h = hashlib.sha256(open(os.path.join(REPO, f), "rb").read()).hexdigest()[:20]
+        except OSError:
+            h = None
+        if base.get(f) != h:
+            changed.append(f)
+    return changed
+
+
 def regenerate(log):
     """Translator: source -> coq/theories/gen/*.v (write-if-changed)."""
     gen = os.path.join(ROOT, "tools", "gen", "gen_all.py")
@@ -271,6 +307,13 @@ def run_check(pid, tier, seed, replay=None):
     # ---- harness + correspondence ----
     n = cfg.get("thorough_n", 4000) if tier == "thorough" else cfg.get("quick_n", 300)
     seeds = [seed + i for i in range(cfg.get("thorough_seeds", 2) if tier == "thorough" else 1)]
+    changed = changed_sources(pid, cfg)
+    if changed and tier == "quick":
+        # the anchored source text differs from the text the model was validated against:
+        # look much harder before believing the correspondence (no alarm by itself).
+        n = n * cfg.get("escalate_factor", 4)
+        seeds = [seed, seed + 1, seed + 2]
+        log.append("escalated: anchored sources changed since baseline: %s" % changed)
     hb_ok, binp, hb_out = harness_build(cfg, work, log)
     results = []
     failures = []
@@ -401,6 +444,7 @@ def run_check(pid, tier, seed, replay=None):
             "oracle": {"failing_inputs": len(failures), "known": len(known_hits), "unlisted": len(unknown),
                        "search_evaluations": searched},
             "broken": broken,
+            "sources_changed_since_baseline": changed,
             "coqchk": chk,
             "extra": [r.get("extra") for r in results if r.get("extra")][:1],
         },
